@@ -190,6 +190,109 @@ def pubEndSegment (datalength seg uploadSize : Nat) : Int :=
     if uploadSize % seg = 0 then e - 1 else e
   else ((numSegments datalength seg : Nat) : Int) - 1
 
+/-! ### Servermap update data → the two boundary segments
+    (`ServermapUpdater._got_results` with `fetch_update_data`, `_got_update_results_one_share`,
+    `ServerMap.set_update_data_for_share_and_verinfo`, `MutableFileVersion._decode_and_decrypt_segments`,
+    `Retrieve.decode`).  A fetched block is represented by the number of the segment it was read from (`k`
+    blocks of segment `i` reassemble to `decodedJoined … i`); block hashes, salts and the bytes of a block
+    are abstracted. -/
+
+inductive Item
+  | verinfo (ver : Nat)
+  | blockhashes
+  | block (seg : Int)
+  deriving DecidableEq, Repr
+
+/-- `_got_results`: `ds = [get_verinfo(), get_blockhashes(), get_block_and_salt(start_segment),
+    get_block_and_salt(end_segment)]`, gathered in that order; `get_block_and_salt` raises
+    `LayoutInvalid("Not a valid segment number")` when `segnum + 1 > num_segments` (then nothing is
+    recorded for the share: `none`). -/
+def fetchShare (numSegs ver startSeg : Nat) (endSeg : Int) : Option (List Item) :=
+  if startSeg + 1 > numSegs ∨ endSeg + 1 > (numSegs : Int) then none
+  else some [.verinfo ver, .blockhashes, .block startSeg, .block endSeg]
+
+abbrev Datum := Item × Item × Item            -- (blockhashes, start, end)
+abbrev Entry := Item × Datum                  -- (verinfo, (blockhashes, start, end))
+abbrev UpdateData := List (Nat × List Entry)  -- `ServerMap.update_data`: shnum ↦ entries, in dict order
+
+/-- `_got_update_results_one_share`: `assert len(results) == 4; verinfo, blockhashes, start, end = results`. -/
+def gotUpdateResults : List Item → Option Entry
+  | [v, bh, s, e] => some (v, (bh, s, e))
+  | _ => none
+
+/-- `set_update_data_for_share_and_verinfo`: `self.update_data.setdefault(shnum, []).append((verinfo, data))`. -/
+def recordUpdate : UpdateData → Nat → Entry → UpdateData
+  | [], sh, en => [(sh, [en])]
+  | (sh', es) :: rest, sh, en =>
+    if sh' = sh then (sh', es ++ [en]) :: rest else (sh', es) :: recordUpdate rest sh en
+
+/-- the servermap update for the shares that answer, in the order their answers are processed. -/
+def servermapUpdateData (shares : List Nat) (numSegs ver startSeg : Nat) (endSeg : Int) (ud : UpdateData) :
+    UpdateData :=
+  shares.foldl (fun ud sh =>
+    match (fetchShare numSegs ver startSeg endSeg).bind gotUpdateResults with
+    | some en => recordUpdate ud sh en
+    | none => ud) ud
+
+/-- `_decode_and_decrypt_segments`, one share: `data = [d[1] for d in original_data if d[0] == self._version]`,
+    `datum = data[0]` (IndexError), `assert [x for x in data if x != datum] == []`. -/
+def selectDatum (version : Item) (entries : List Entry) : Except Err Datum :=
+  match (entries.filter (fun en => en.1 = version)).map (·.2) with
+  | [] => .error .index
+  | d :: rest => if rest.all (fun x => x = d) then .ok d else .error .assertion
+
+/-- `_decode_and_decrypt_segments`: `start_segments[shnum] = datum[1]`, `end_segments[shnum] = datum[2]`,
+    looping over `update_data.items()`. -/
+def boundaryMaps (version : Item) : UpdateData → Except Err (List (Nat × Item) × List (Nat × Item))
+  | [] => .ok ([], [])
+  | (sh, entries) :: rest =>
+    match selectDatum version entries with
+    | .error e => .error e
+    | .ok (_, s, e) =>
+      match boundaryMaps version rest with
+      | .error x => .error x
+      | .ok (sm, em) => .ok ((sh, s) :: sm, (sh, e) :: em)
+
+/-- `Retrieve.decode(blocks_and_salts, segnum)` → `_decode_blocks`: the salt of the first entry
+    (`list(d.items())[0]`, IndexError on an empty dict), `_assert(len(shareids) >= k)`, the first `k` blocks
+    decoded with the decoder and `size_to_use` of `segnum`.  The `k` blocks of one dict come from one segment
+    (that of the first block is used). "Segment -1" (zero-length write at offset 0) reads bytes before the share
+    data; the result is never used and is modelled as empty. -/
+def decodeFetched (content : Bytes) (seg k : Nat) (blocks : List (Nat × Item)) (segnum : Int) : Except Err Bytes :=
+  match blocks with
+  | [] => .error .index
+  | (_, b) :: _ =>
+    if blocks.length < k then .error .assertion else
+    match b with
+    | .block i =>
+      if i < 0 ∨ segnum < 0 then .ok []
+      else
+        let dl := content.length
+        let sizeToUse := if segnum.toNat + 1 = numSegments dl seg then tailSize dl seg else seg
+        .ok ((decodedJoined content seg k i.toNat).take sizeToUse)
+    | _ => .error .assertion
+
+/-- `_decode_and_decrypt_segments`: from the servermap's `update_data` and the object's version to the two
+    plaintext boundary segments `(start, end)`. -/
+def boundarySegmentsOf (ud : UpdateData) (version : Item) (content : Bytes) (seg k startSeg : Nat) (endSeg : Int) :
+    Except Err (Bytes × Bytes) :=
+  match boundaryMaps version ud with
+  | .error e => .error e
+  | .ok (sm, em) =>
+    if content.length = 0 then .error .assertion else   -- `Retrieve.decode`: `_assert(self._read_length > 0)`
+    match decodeFetched content seg k sm startSeg with
+    | .error e => .error e
+    | .ok a =>
+      match decodeFetched content seg k em endSeg with
+      | .error e => .error e
+      | .ok b => .ok (a, b)
+
+/-- the updater's two boundary segments, from a fresh servermap update answered by `shares`. -/
+def boundarySegmentsFrom (shares : List Nat) (content : Bytes) (seg k startSeg : Nat) (endSeg : Int) :
+    Except Err (Bytes × Bytes) :=
+  boundarySegmentsOf (servermapUpdateData shares (numSegments content.length seg) 0 startSeg endSeg [])
+    (.verinfo 0) content seg k startSeg endSeg
+
 /-- `MutableFileVersion._update` for an MDMF version (`_do_update_update`,
     `_decode_and_decrypt_segments`, `_build_uploadable_and_finish`, `Publish.update`). -/
 def mdmfUpdate (cfg : Cfg) (v : Version) (off : Nat) (data : Bytes) : Except Err Version :=
@@ -198,12 +301,12 @@ def mdmfUpdate (cfg : Cfg) (v : Version) (off : Nat) (data : Bytes) : Except Err
   if seg = 0 then .error .zerodiv else                -- `div_ceil(old_size, segment_size)`
   if ¬ off ≤ size then .error .assertion else         -- `assert offset <= self.get_size()`
   let (startSeg, endSeg) := updateRange size seg off data.length
-  -- servermap update fetches blocks `start_segment` and `end_segment` of every share
-  if size = 0 then .error .assertion else             -- `Retrieve.decode`: `_assert(self._read_length > 0)`
-  if ¬ startSeg < numSegments size seg then .error .index else   -- "Not a valid segment number"
-  -- `_decode_and_decrypt_segments`: `Retrieve.decode` → `_decode_blocks` for the two boundary segments
-  let start := decodeBlocks v.content seg cfg.k startSeg
-  let end_ := if endSeg < 0 then [] else decodeBlocks v.content seg cfg.k endSeg.toNat
+  -- the servermap update fetches blocks `start_segment` and `end_segment` of every share (modelled with the
+  -- `k` shares the decoder needs; `boundary_segments_paired` is for any ≥ k answering shares);
+  -- `_decode_and_decrypt_segments` turns them into the two boundary segments
+  match boundarySegmentsFrom (List.range cfg.k) v.content seg cfg.k startSeg endSeg with
+  | .error e => .error e     -- empty file: AssertionError; start segment not fetchable: IndexError
+  | .ok (start, end_) =>
   let tu := TU.init data off seg start end_
   -- Publish.update
   let uploadSize := off + data.length                  -- `TransformingUploadable.get_size()`
